@@ -267,6 +267,16 @@ def wl_bad_data(ctx, idx, rng):
         cases.append((f"zero_axis{ax}", arr(tuple(s2), dt), ValueError))
     if len(shp) == 1:
         cases.append(("zero_trailing", arr((3, 0), dt), ValueError))
+    # the same with an empty time axis as well (e.g. an empty time slice whose channels were all masked out)
+    for ax in range(1, len(shp)):
+        s2 = list(shp)
+        s2[0] = 0
+        if (req[ax] if ax < len(req) else None):
+            continue
+        s2[ax] = 0
+        cases.append((f"zero_time_and_axis{ax}", arr(tuple(s2), dt), ValueError))
+    if len(shp) == 1:
+        cases.append(("zero_time_and_trailing", arr((0, 0), dt), ValueError))
     # wrong fixed axis
     for ax, r in enumerate(req):
         if r is not None:
